@@ -3,6 +3,7 @@ package main
 // Contract expressions (Go syntax + a few built-ins) -> SMT terms.
 
 import (
+	"os"
 	"fmt"
 	"go/ast"
 	"go/constant"
@@ -529,6 +530,9 @@ func (e *exprEnv) index(n *ast.IndexExpr) (cval, error) {
 	if v.typ == nil {
 		// ghost array / set
 		if strings.HasPrefix(v.sort, "(Array ") {
+			if strings.HasSuffix(v.sort, " Int)") {
+				return cval{term: fmt.Sprintf("(select %s %s)", v.term, i.term), typ: intT}, nil
+			}
 			return cval{term: fmt.Sprintf("(select %s %s)", v.term, i.term), typ: boolT}, nil
 		}
 		return cval{}, fmt.Errorf("index on ghost value")
@@ -661,10 +665,31 @@ func (e *exprEnv) call(n *ast.CallExpr) (cval, error) {
 				return cval{}, fmt.Errorf("old() not available here")
 			}
 			return e.with(e.old).expr(n.Args[0])
+		case "baseof", "capof":
+			// identity of the backing array of a slice (two slices with different bases share no element) / its capacity
+			v, err := e.expr(n.Args[0])
+			if err != nil {
+				return cval{}, err
+			}
+			if _, ok := v.typ.Underlying().(*types.Slice); !ok {
+				return cval{}, fmt.Errorf("%s of non-slice", name)
+			}
+			if name == "capof" {
+				return cval{term: fmt.Sprintf("(s_cap %s)", v.term), typ: intT}, nil
+			}
+			return cval{term: fmt.Sprintf("(s_base %s)", v.term), typ: intT}, nil
 		case "len":
 			v, err := e.expr(n.Args[0])
 			if err != nil {
 				return cval{}, err
+			}
+			if v.typ == nil && strings.HasPrefix(v.sort, "(Array ") && strings.HasSuffix(v.sort, " Bool)") {
+				// a key set ($visited): its cardinality
+				ks := strings.TrimSuffix(strings.TrimPrefix(v.sort, "(Array "), " Bool)")
+				return cval{term: fmt.Sprintf("(%s %s)", B.cardFn(ks), v.term), typ: intT}, nil
+			}
+			if v.typ == nil {
+				return cval{}, fmt.Errorf("len of an untyped term")
 			}
 			switch u := v.typ.Underlying().(type) {
 			case *types.Slice:
@@ -674,8 +699,7 @@ func (e *exprEnv) call(n *ast.CallExpr) (cval, error) {
 			case *types.Map:
 				ks := B.sortOf(u.Key())
 				ps := arrOf("(Array " + ks + " Bool)")
-				fn := B.declFun("card:"+ks, []string{"(Array " + ks + " Bool)"}, "Int")
-				B.rawDecl("cardax:"+ks, fmt.Sprintf("(assert (forall ((s (Array %s Bool))) (! (and (>= (%s s) 0) (=> (= (%s s) 0) (= s ((as const (Array %s Bool)) false)))) :pattern ((%s s)))))\n(assert (= (%s ((as const (Array %s Bool)) false)) 0))", ks, fn, fn, ks, fn, fn, ks))
+				fn := B.cardFn(ks)
 				return cval{term: ite(fmt.Sprintf("(= %s 0)", v.term), "0", fmt.Sprintf("(%s (select %s %s))", fn, t.get(e.st, mapPArr(u), ps), v.term)), typ: intT}, nil
 			}
 			return cval{}, fmt.Errorf("len of %s", v.typ)
@@ -707,9 +731,9 @@ func (e *exprEnv) call(n *ast.CallExpr) (cval, error) {
 			rng := fmt.Sprintf("(and (<= %s %s) (< %s %s))", lo.term, q(qv), q(qv), hi.term)
 			pats := selectPatterns(body.term, q(qv))
 			if name == "forall" {
-				return cval{term: fmt.Sprintf("(forall ((%s Int)) %s)", q(qv), withPatterns(fmt.Sprintf("(=> %s %s)", rng, body.term), pats)), typ: boolT}, nil
+				return cval{term: mkForall(q(qv), "Int", rng, body.term, pats), typ: boolT}, nil
 			}
-			return cval{term: fmt.Sprintf("(exists ((%s Int)) %s)", q(qv), withPatterns(fmt.Sprintf("(and %s %s)", rng, body.term), pats)), typ: boolT}, nil
+			return cval{term: e.exposeOuter(n.Args[3], bv.Name, fmt.Sprintf("(exists ((%s Int)) %s)", q(qv), withPatterns(fmt.Sprintf("(and %s %s)", rng, body.term), pats))), typ: boolT}, nil
 		case "allref", "exref", "allint", "exint", "allstr", "exstr", "allof", "exof":
 			bv, ok := n.Args[0].(*ast.Ident)
 			if !ok {
@@ -757,12 +781,9 @@ func (e *exprEnv) call(n *ast.CallExpr) (cval, error) {
 			pats := selectPatterns(body.term, q(qv))
 			if strings.HasPrefix(name, "all") {
 				// directly nested universal quantifiers are merged into one binder list (patterns may then mention all variables)
-				if strings.HasPrefix(body.term, "(forall (") {
-					return cval{term: fmt.Sprintf("(forall ((%s %s) %s", q(qv), sortQ, body.term[len("(forall ("):]), typ: boolT}, nil
-				}
-				return cval{term: fmt.Sprintf("(forall ((%s %s)) %s)", q(qv), sortQ, withPatterns(body.term, pats)), typ: boolT}, nil
+				return cval{term: mkForall(q(qv), sortQ, "", body.term, pats), typ: boolT}, nil
 			}
-			return cval{term: fmt.Sprintf("(exists ((%s %s)) %s)", q(qv), sortQ, withPatterns(body.term, pats)), typ: boolT}, nil
+			return cval{term: e.exposeOuter(bodyX, bv.Name, fmt.Sprintf("(exists ((%s %s)) %s)", q(qv), sortQ, withPatterns(body.term, pats))), typ: boolT}, nil
 		case "trigger":
 			// trigger(t, P): P with the explicit E-matching pattern t (used in axioms)
 			tv, err := e.expr(n.Args[0])
@@ -1565,6 +1586,7 @@ func (f *frame) callResType(name string, ord, ridx int) types.Type {
 // They make good E-matching triggers (instantiate only for indices that are actually read).
 func selectPatterns(body, qv string) []string {
 	var out []string
+	body = blankExposed(body)
 	seen := map[string]bool{}
 	from := 0
 	for {
@@ -1596,6 +1618,175 @@ func selectPatterns(body, qv string) []string {
 	return out
 }
 
+// exposeOuter conjoins, outside an existential quantifier, a trivially true literal expose(t) for every element read t
+// of its body that does not depend on the bound variable. When the quantifier ends up negated (a goal), these reads
+// would otherwise only occur below the resulting universal quantifier and no E-matching trigger of the hypotheses
+// could fire on them.
+func (e *exprEnv) exposeOuter(body ast.Expr, bound string, term string) string {
+	if os.Getenv("GVC_EXPOSE") == "" { // experimental, off by default: it slows down proofs that do not need it
+		return term
+	}
+	B := e.B()
+	var lits []string
+	seen := map[string]bool{}
+	mentions := func(x ast.Node) bool {
+		found := false
+		ast.Inspect(x, func(n ast.Node) bool {
+			if id, ok := n.(*ast.Ident); ok && id.Name == bound {
+				found = true
+			}
+			return !found
+		})
+		return found
+	}
+	ast.Inspect(body, func(n ast.Node) bool {
+		if c, ok := n.(*ast.CallExpr); ok {
+			if id, ok := c.Fun.(*ast.Ident); ok && id.Name == "old" {
+				return false // evaluated in another state
+			}
+		}
+		ix, ok := n.(*ast.IndexExpr)
+		if !ok {
+			return true
+		}
+		if mentions(ix) {
+			return true
+		}
+		save := B.termMode
+		B.termMode++
+		v, err := e.expr(ix)
+		B.termMode = save
+		if err != nil || v.typ == nil || v.term == "" || seen[v.term] {
+			return false
+		}
+		seen[v.term] = true
+		sortS := B.sortOf(v.typ)
+		fn := B.declFun("expose:"+sortS, []string{sortS}, "Bool")
+		B.rawDecl("exposeax:"+sortS, fmt.Sprintf("(assert (forall ((x %s)) (! (%s x) :pattern ((%s x)))))", sortS, fn, fn))
+		lits = append(lits, fmt.Sprintf("(%s %s)", fn, v.term))
+		return false
+	})
+	if len(lits) == 0 {
+		return term
+	}
+	return "(and " + strings.Join(lits, " ") + " " + term + ")"
+}
+
+// blankExposed removes the expose(...) literals from a term before triggers are chosen: exposed reads help a goal,
+// as triggers of a hypothesis they only cause matching loops.
+func blankExposed(body string) string {
+	for {
+		i := strings.Index(body, "(|expose:")
+		if i < 0 {
+			return body
+		}
+		depth, j := 0, i
+		inBar := false
+		for ; j < len(body); j++ {
+			c := body[j]
+			if c == '|' {
+				inBar = !inBar
+			}
+			if inBar {
+				continue
+			}
+			if c == '(' {
+				depth++
+			} else if c == ')' {
+				depth--
+				if depth == 0 {
+					break
+				}
+			}
+		}
+		if j >= len(body) {
+			return body
+		}
+		body = body[:i] + "true" + body[j+1:]
+	}
+}
+
+var qidCounter int
+
+type forallParts struct {
+	binders string // "(x S) (y T)"
+	body    string
+	pats    []string // each a (possibly multi-) pattern: the text between ":pattern (" and ")"
+}
+
+// universal quantifiers built by mkForall, by their text (directly nested ones are merged into one binder list)
+var forallInfo = map[string]forallParts{}
+
+// mkForall builds (forall ((qv sort)) (=> guard body)) with explicit triggers. A body that is itself a universal
+// quantifier built here is merged into one quantifier whose triggers are the combinations of the inner and outer ones,
+// so that every trigger mentions all bound variables.
+func mkForall(qv, sort, guard, body string, pats []string) string {
+	inner, nested := forallInfo[body]
+	binders := fmt.Sprintf("(%s %s)", qv, sort)
+	full := body
+	if nested {
+		full = inner.body
+		binders += " " + inner.binders
+	}
+	if guard != "" {
+		full = fmt.Sprintf("(=> %s %s)", guard, full)
+	}
+	var all []string
+	if nested {
+		outer := selectPatterns(full, qv)
+		if len(outer) == 0 {
+			outer = pats
+		}
+		switch {
+		case len(outer) > 0 && len(inner.pats) > 0:
+			for _, po := range outer {
+				for _, pi := range inner.pats {
+					if len(all) < 6 {
+						if strings.Contains(pi, po) {
+							all = append(all, pi)
+						} else {
+							all = append(all, po+" "+pi)
+						}
+					}
+				}
+			}
+		case len(inner.pats) > 0:
+			// the outer variable occurs in no array read of its own: usable only if the inner triggers mention it
+			for _, pi := range inner.pats {
+				if strings.Contains(pi, qv) {
+					all = append(all, pi)
+				}
+			}
+		default:
+			all = outer
+		}
+	} else {
+		all = pats
+	}
+	if strings.HasPrefix(full, "(! ") {
+		all = nil // explicit trigger(...) given in the contract
+	}
+	var sb strings.Builder
+	fmt.Fprintf(&sb, "(forall (%s) ", binders)
+	if len(all) == 0 {
+		sb.WriteString(full)
+	} else {
+		sb.WriteString("(! ")
+		sb.WriteString(full)
+		for _, p := range all {
+			sb.WriteString(" :pattern (")
+			sb.WriteString(p)
+			sb.WriteString(")")
+		}
+		qidCounter++
+		fmt.Fprintf(&sb, " :qid q%d)", qidCounter)
+	}
+	sb.WriteString(")")
+	out := sb.String()
+	forallInfo[out] = forallParts{binders: binders, body: full, pats: all}
+	return out
+}
+
 func withPatterns(body string, pats []string) string {
 	if len(pats) == 0 || strings.HasPrefix(body, "(! ") {
 		return body
@@ -1608,7 +1799,8 @@ func withPatterns(body string, pats []string) string {
 		sb.WriteString(p)
 		sb.WriteString(")")
 	}
-	sb.WriteString(")")
+	qidCounter++
+	fmt.Fprintf(&sb, " :qid q%d)", qidCounter)
 	return sb.String()
 }
 
